@@ -363,6 +363,31 @@ func run(c Case) *harn.Failure {
 				}
 			}
 			if l.Kind == "date" && l.Day != "" {
+				// (5a) spelling independence: the same day written as a full ISO timestamp (noon of that day in the environment's
+				// zone, with the zone's own offset at that moment) gives the same verdicts as the date-only spelling
+				var y, mo, d int
+				if n, _ := fmt.Sscanf(l.Day, "%d-%d-%d", &y, &mo, &d); n == 3 {
+					noon := time.Date(y, time.Month(mo), d, 12, 0, 0, 0, env.Timezone())
+					// days whose own or next midnight does not exist or occurs twice in this zone are left out: there the two
+					// spellings find the day's start by different routes (the listed day-range finding)
+					cleanMidnight := func(dd int) bool {
+						m0 := time.Date(y, time.Month(mo), dd, 0, 0, 0, 0, env.Timezone())
+						want := time.Date(y, time.Month(mo), dd, 0, 0, 0, 0, time.UTC)
+						before, after := m0.Add(-time.Hour), m0.Add(time.Hour)
+						return m0.Hour() == 0 && m0.Day() == want.Day() && !(before.Hour() == 0 && before.Day() == m0.Day()) && !(after.Hour() == 0 && after.Day() == m0.Day())
+					}
+					if _, off := noon.Zone(); off%60 == 0 && noon.Day() == d && cleanMidnight(d) && cleanMidnight(d+1) {
+						for _, op := range ops {
+							l3 := l
+							l3.Op, l3.Value = op, noon.Format("2006-01-02T15:04:05-07:00") // numeric offset also for +00:00: "Z" names UTC, a different zone
+							if v, err := evalText(env, contact, l3.text()); err == nil && v != res[op] {
+								f = harn.Failf("day-spelling-independent", "leaf %q is %v but the same day written as %q gives %v (environment zone %s, contact value %s)", func() string { l4 := l; l4.Op = op; return l4.text() }(), res[op], l3.text(), v, env.Timezone(), contactDate(c.Contact, l))
+								return
+							}
+						}
+						stats.Label("date:iso-spelling-compared")
+					}
+				}
 				// (5) calendar-day model in the environment's timezone
 				ct, _ := time.Parse(time.RFC3339Nano, contactDate(c.Contact, l))
 				cd := localDay(ct, env.Timezone())
